@@ -54,7 +54,7 @@ type Faults struct {
 	CallbackFailAt int  `json:"callbackFailAt"`
 	BreakAt        int  `json:"breakAt"`
 	CbErrKind      int  `json:"cbErrKind,omitempty"` // which value the failing callback returns (see CallbackErr)
-	IOKind         int  `json:"ioKind,omitempty"`    // 1: the reader also implements io.WriterTo and the writer io.StringWriter (code may take other paths for them); 2: the reader is also an io.Closer; 3: a *bytes.Reader; 4: an open regular file; 5: a *bufio.Reader around the fault-injecting reader; 6: an empty regular file opened write-only (Read fails with EBADF); 8/9: a *bytes.Reader / regular file positioned behind an earlier (hostile) section the caller has already consumed
+	IOKind         int  `json:"ioKind,omitempty"`    // 1: the reader also implements io.WriterTo and the writer io.StringWriter (code may take other paths for them); 2: the reader is also an io.Closer; 3: a *bytes.Reader; 4: an open regular file; 5: a *bufio.Reader around the fault-injecting reader; 7: a *bytes.Buffer; 6: an empty regular file opened write-only (Read fails with EBADF); 8/9: a *bytes.Reader / regular file positioned behind an earlier (hostile) section the caller has already consumed
 	ErrKind        int  `json:"errKind,omitempty"`   // which well-known error the injected reader/writer error additionally wraps (see FaultErr)
 }
 
@@ -94,6 +94,8 @@ type Case struct {
 	LateProg   []AddStep `json:"lateProg,omitempty"`   // From-Root walkiter only: Add calls made after the iterator was created and before it is ranged over
 	MidProg    []AddStep `json:"midProg,omitempty"`    // From-Root only: Add calls made after the PreOps and before the operation under test
 	RangeTwice bool      `json:"rangeTwice,omitempty"` // walkiter: the same iterator value is ranged over a second time
+	Nest       int       `json:"nest,omitempty"`       // walkiter: k>0 = while the walk is at its visit k-1, another complete walk of the same tree runs (odd k: over the same iterator value, even k: over a new one)
+	NestBreak  bool      `json:"nestBreak,omitempty"`  // the inner walk is left after its first visit
 	Opts       Opts      `json:"opts"`
 	FS         *FSSpec   `json:"fs,omitempty"`
 	Faults     Faults    `json:"faults"`
@@ -130,30 +132,31 @@ type Visit struct {
 }
 
 type Result struct {
-	Err             ErrInfo           `json:"err"`
-	Out             []byte            `json:"out,omitempty"`    // bytes accepted by the writer
-	Color           []byte            `json:"color,omitempty"`  // bytes written to color.Output
-	Writes          int               `json:"writes,omitempty"` // Write calls seen
-	WriteFailed     bool              `json:"writeFailed,omitempty"`
-	Offered         int               `json:"offered,omitempty"` // bytes offered to the writer
-	ReadBytes       int               `json:"readBytes,omitempty"`
-	LateReadBytes   int               `json:"lateReadBytes,omitempty"`   // bytes the reader was asked for after the call had returned
-	CloseDuringRead bool              `json:"closeDuringRead,omitempty"` // the reader's Close was called while one of its Reads was pending
-	Visits          []Visit           `json:"visits,omitempty"`
-	VisitsAfter     int               `json:"visitsAfter,omitempty"`  // callbacks after the stop position
-	SecondVisits    int               `json:"secondVisits,omitempty"` // visits of the second range over the same iterator value (RangeTwice)
-	Before          SnapMap           `json:"before,omitempty"`
-	After           SnapMap           `json:"after,omitempty"`
-	Panic           string            `json:"panic,omitempty"`
-	Hang            string            `json:"hang,omitempty"`
-	Leaked          string            `json:"leaked,omitempty"`
-	Race            string            `json:"race,omitempty"`
-	Died            string            `json:"died,omitempty"` // worker process died (stderr tail)
-	Reached         map[string]int    `json:"reached,omitempty"`
-	CtxCancelled    bool              `json:"ctxCancelled,omitempty"` // the context was cancelled before the call returned
-	ElapsedUs       int64             `json:"elapsedUs,omitempty"`
-	Second          *Result           `json:"second,omitempty"` // result of the repeated call when Twice
-	Infra           string            `json:"infra,omitempty"`  // harness-level problem (never a violation)
+	Err             ErrInfo        `json:"err"`
+	Out             []byte         `json:"out,omitempty"`    // bytes accepted by the writer
+	Color           []byte         `json:"color,omitempty"`  // bytes written to color.Output
+	Writes          int            `json:"writes,omitempty"` // Write calls seen
+	WriteFailed     bool           `json:"writeFailed,omitempty"`
+	Offered         int            `json:"offered,omitempty"` // bytes offered to the writer
+	ReadBytes       int            `json:"readBytes,omitempty"`
+	LateReadBytes   int            `json:"lateReadBytes,omitempty"`   // bytes the reader was asked for after the call had returned
+	CloseDuringRead bool           `json:"closeDuringRead,omitempty"` // the reader's Close was called while one of its Reads was pending
+	Visits          []Visit        `json:"visits,omitempty"`
+	VisitsAfter     int            `json:"visitsAfter,omitempty"`  // callbacks after the stop position
+	SecondVisits    int            `json:"secondVisits,omitempty"` // visits of the second range over the same iterator value (RangeTwice)
+	InnerVisits     int            `json:"innerVisits,omitempty"`  // visits of the nested walk (Case.Nest)
+	Before          SnapMap        `json:"before,omitempty"`
+	After           SnapMap        `json:"after,omitempty"`
+	Panic           string         `json:"panic,omitempty"`
+	Hang            string         `json:"hang,omitempty"`
+	Leaked          string         `json:"leaked,omitempty"`
+	Race            string         `json:"race,omitempty"`
+	Died            string         `json:"died,omitempty"` // worker process died (stderr tail)
+	Reached         map[string]int `json:"reached,omitempty"`
+	CtxCancelled    bool           `json:"ctxCancelled,omitempty"` // the context was cancelled before the call returned
+	ElapsedUs       int64          `json:"elapsedUs,omitempty"`
+	Second          *Result        `json:"second,omitempty"` // result of the repeated call when Twice
+	Infra           string         `json:"infra,omitempty"`  // harness-level problem (never a violation)
 }
 
 // Bad reports process-level failures that are violations for every property.
